@@ -135,3 +135,126 @@ def judge_merge(result_pairs, a_pairs, b_pairs, numeric_sort):
                 return "an all-number merged value is not in numeric order under numeric_sort", d, classes
         # 'unclear': elements and duplicate-freeness only
     return None, None, classes
+
+
+# --- one object, edited between observations (kind edit) and scalar JSON texts (kind sjson) ---------------------------
+COLUMN_NAMES = ["seqid", "source", "featuretype", "start", "end", "score", "strand", "frame"]
+# characters every GFF3 reader expects percent-encoded inside a value
+_MUST_ENCODE = {"%": "%25", ";": "%3B", "=": "%3D", "&": "%26", ",": "%2C", "\t": "%09", "\n": "%0A", "\r": "%0D"}
+
+
+def column_texts(cols):
+    """The first eight fields of the line describing a feature with these column values (None coordinate = '.')."""
+    return ["." if (c is None and i in (3, 4)) else str(c) for i, c in enumerate(cols)]
+
+
+def render_line(cols, pairs, fmt):
+    """The 'proper line' of a feature: columns + attributes [[key, [values]]] in the plain form of the format
+    (GFF3: k=v1,v2;flag with reserved characters percent-encoded; GTF: k "v1,v2"; empty list = k "";)."""
+    parts = []
+    if fmt == "gtf":
+        for k, v in pairs:
+            parts.append('%s "%s";' % (k, ",".join(v)))
+        attr = " ".join(parts)
+    else:
+        for k, v in pairs:
+            enc = ["".join(_MUST_ENCODE.get(c, c) for c in x) for x in v]
+            parts.append(k + "=" + ",".join(enc) if enc else k)
+        attr = ";".join(parts)
+    return "\t".join(column_texts(cols) + [attr])
+
+
+INPLACE = ["append", "extend", "pop", "pop0", "setitem0", "setitem_last", "insert0", "remove_first", "reverse", "iadd",
+           "clear", "sort", "slice_assign", "del0"]
+
+
+def inplace_result(values, what, args):
+    """What a Python list holding `values` holds after the in-place operation; None = the operation does not apply
+    (empty list) and is not carried out."""
+    v = list(values)
+    args = list(args)
+    if what == "append":
+        v.append(args[0])
+    elif what in ("extend", "iadd"):
+        v.extend(args)
+    elif what == "insert0":
+        v.insert(0, args[0])
+    elif what == "reverse":
+        v.reverse()
+    elif what == "sort":
+        v.sort()
+    elif what == "clear":
+        del v[:]
+    elif what == "slice_assign":
+        v[:] = args
+    elif not v:
+        return None
+    elif what == "pop":
+        v.pop()
+    elif what in ("pop0", "del0", "remove_first"):
+        del v[0]
+    elif what == "setitem0":
+        v[0] = args[0]
+    elif what == "setitem_last":
+        v[-1] = args[0]
+    else:
+        raise ValueError(what)
+    return v
+
+
+def do_inplace(lst, what, args):
+    """The same operation carried out on a real list object (the one handed out by the code under test)."""
+    args = list(args)
+    if what == "append":
+        lst.append(args[0])
+    elif what == "extend":
+        lst.extend(args)
+    elif what == "iadd":
+        lst += args
+    elif what == "insert0":
+        lst.insert(0, args[0])
+    elif what == "reverse":
+        lst.reverse()
+    elif what == "sort":
+        lst.sort()
+    elif what == "clear":
+        del lst[:]
+    elif what == "slice_assign":
+        lst[:] = args
+    elif what == "pop":
+        lst.pop()
+    elif what == "pop0":
+        lst.pop(0)
+    elif what == "del0":
+        del lst[0]
+    elif what == "remove_first":
+        lst.remove(lst[0])
+    elif what == "setitem0":
+        lst[0] = args[0]
+    elif what == "setitem_last":
+        lst[-1] = args[0]
+    else:
+        raise ValueError(what)
+
+
+def scalar_json(items, style=0):
+    """JSON text of a mapping [[key, form]] in which a scalar form is written as a JSON string (not a list).
+    style: 0 compact, 1 default separators, 2 compact + non-ASCII kept, 3 indented."""
+    import json
+
+    obj = {}
+    for k, form in items:
+        obj[k] = form[1] if form[0] == "scalar" else list(form[1])
+    if style == 1:
+        return json.dumps(obj)
+    if style == 2:
+        return json.dumps(obj, separators=(",", ":"), ensure_ascii=False)
+    if style == 3:
+        return json.dumps(obj, indent=1)
+    return json.dumps(obj, separators=(",", ":"))
+
+
+def list_json(items):
+    import json
+
+    return json.dumps({k: expected_sequence(form) for k, form in items}, separators=(",", ":"))
